@@ -18,11 +18,14 @@ package transport
 import (
 	"bytes"
 	"crypto/rand"
+	"encoding/json"
+	"flag"
 	"fmt"
 	"net"
 	"os"
 	"sort"
 	"strings"
+	"sync/atomic"
 	"sync"
 	"testing"
 	"testing/synctest"
@@ -545,7 +548,7 @@ func (r *c10RT) establish(addr *net.UDPAddr, host int, second bool) (*c10Sess, e
 		return nil, fmt.Errorf("client handshake: %v", err)
 	}
 	s := &c10Sess{cli: cli, id: cli.ss.sessionID, addr: addr}
-	synctest.Wait()
+	c10Wait()
 	r.mu.Lock()
 	s.h = r.handles[s.id]
 	r.mu.Unlock()
@@ -792,7 +795,7 @@ func (r *c10RT) junkToServer(j c10Junk, peer *net.UDPAddr, wait bool) {
 	r.note(class, structured)
 	r.env.Net.Inject(r.srcAddr(j, peer), vSrvAddr, data)
 	if wait {
-		synctest.Wait()
+		c10Wait()
 	}
 }
 
@@ -915,7 +918,7 @@ func (r *c10RT) midClient(k int) (done chan error, cli *Client, addr *net.UDPAdd
 	r.mu.Unlock()
 	done = make(chan error, 1)
 	go func() { done <- cli.Handshake() }()
-	synctest.Wait()
+	c10Wait()
 	r.mu.Lock()
 	ok = len(r.held) == 1
 	r.hold = nil
@@ -931,7 +934,7 @@ func (r *c10RT) releaseHeld() {
 	for _, d := range held {
 		r.env.Net.Inject(d.Src, d.Dst, d.Data)
 	}
-	synctest.Wait()
+	c10Wait()
 }
 
 func (r *c10RT) stateTag() string { return r.c.Target + "-" + r.c.State }
@@ -1025,7 +1028,7 @@ func (r *c10RT) runServer() {
 		}
 		return
 	}
-	synctest.Wait()
+	c10Wait()
 	if midDone != nil {
 		r.releaseHeld()
 		select {
@@ -1076,7 +1079,7 @@ func (r *c10RT) runClient() {
 			}
 			r.note(class, structured)
 			r.env.Net.Inject(r.srcAddr(j, vSrvAddr), addr, data)
-			synctest.Wait()
+			c10Wait()
 		}
 		if err := r.probe(s, 500); err != nil {
 			r.v.Failf("C10:established-session-dead-after-junk", "the client's open session (%x, %s) no longer carries a message each way after %d junk datagrams: %v", s.id, c.Cfg, r.injected, err)
@@ -1107,7 +1110,7 @@ func (r *c10RT) runClient() {
 		r.mu.Unlock()
 		done := make(chan error, 1)
 		go func() { done <- cli.Handshake() }()
-		synctest.Wait()
+		c10Wait()
 		r.mu.Lock()
 		ok := len(r.held) == 1
 		r.hold = nil
@@ -1129,7 +1132,7 @@ func (r *c10RT) runClient() {
 		data, class, structured := r.build(j)
 		r.note(class, structured)
 		r.env.Net.Inject(r.srcAddr(j, vSrvAddr), addr, data)
-		synctest.Wait()
+		c10Wait()
 		if c.Release {
 			r.releaseHeld()
 		} else {
@@ -1179,13 +1182,96 @@ func c10Scenario(t *testing.T, c c10Case, v *vlib.Verdict, rec *vlib.Recorder, t
 	return r
 }
 
+// c10HungVerdicts: verdicts of cases whose bubble froze, by case JSON (this process).
+var c10HungVerdicts = map[string]vlib.Verdict{}
+
+// c10Realtime: the scenario is being re-run outside any bubble, with real timers (see c10Run).
+var c10Realtime atomic.Bool
+
+// c10Wait lets everything triggered so far settle: synctest.Wait inside the bubble, a generous sleep in real time.
+func c10Wait() {
+	if c10Realtime.Load() {
+		time.Sleep(60 * time.Millisecond)
+		return
+	}
+	synctest.Wait()
+}
+
+// c10MutexWaiters: top-most non-harness hop frame of every bubble goroutine that waits for a sync.Mutex / RWMutex.
+func c10MutexWaiters(stacks string) []string {
+	seen := map[string]bool{}
+	var out []string
+	for _, g := range strings.Split(stacks, "\n\n") {
+		if !strings.Contains(g, "bubble") || !(strings.Contains(g, "sync.(*Mutex).Lock") || strings.Contains(g, "sync.(*RWMutex).")) {
+			continue
+		}
+		lines := strings.Split(g, "\n")
+		for i := 0; i+1 < len(lines); i++ {
+			l := lines[i]
+			if !strings.HasPrefix(l, "hop.computer/hop/") || strings.Contains(lines[i+1], "zz_verif") {
+				continue
+			}
+			if k := strings.LastIndex(l, "("); k > 0 {
+				l = l[:k]
+			}
+			l = strings.TrimPrefix(l, "hop.computer/hop/")
+			if !seen[l] {
+				seen[l] = true
+				out = append(out, l)
+			}
+			break
+		}
+	}
+	sort.Strings(out)
+	return out
+}
+
 func c10Run(t *testing.T, rec *vlib.Recorder) func(c c10Case, v *vlib.Verdict) {
 	return func(c c10Case, v *vlib.Verdict) {
 		table := c10Table(t)
 		var r *c10RT
-		res := vlib.Bubble(t, 120*time.Second, func() { r = c10Scenario(t, c, v, rec, table) })
+		ck, _ := json.Marshal(c)
+		if old, ok := c10HungVerdicts[string(ck)]; ok {
+			*v = old // rapid re-runs a failing case; a frozen one costs minutes
+			return
+		}
+		res := vlib.Bubble(t, 30*time.Second, func() { r = c10Scenario(t, c, v, rec, table) })
 		if res.Hung {
-			v.Inconclusive = "bubble hung in real time (C10)"
+			defer func() { c10HungVerdicts[string(ck)] = *v }()
+			// every further evaluation of a frozen case costs minutes: no shrinking beyond what is already running
+			flag.Set("rapid.shrinktime", "1ms")
+			// A bubble freezes when a goroutine waits for a mutex whose holder is blocked: either an artifact of the
+			// virtual clock (the holder would go on as soon as time passes) or the wedge this property is about (the
+			// mutex is never released). Decide outside any bubble, with real timers, where no such artifact exists.
+			waiters := c10MutexWaiters(res.Stacks)
+			v2 := &vlib.Verdict{}
+			done := make(chan struct{})
+			c10Realtime.Store(true)
+			go func() {
+				defer close(done)
+				defer func() {
+					if p := recover(); p != nil {
+						v2.Failf(vlib.PanicSig(fmt.Sprint(p), vlib.AllStacks()), "panic: %v", p)
+					}
+				}()
+				c10Scenario(t, c, v2, rec, table)
+			}()
+			hungToo := false
+			select {
+			case <-done:
+			case <-time.After(60 * time.Second):
+				hungToo = true
+			}
+			c10Realtime.Store(false)
+			*v = vlib.Verdict{Labels: []string{"bubble-froze:re-run-in-real-time"}}
+			switch {
+			case hungToo:
+				v.Failf("C10:endpoint-wedged:"+fmt.Sprint(waiters)+":confirmed-in-real-time", "the scenario neither finishes under the virtual clock nor within 60 s of real time; goroutines of the code under test waiting for a mutex: %v", waiters)
+			case !v2.OK():
+				v.Failf(v2.Violations[0].Sig+":confirmed-in-real-time", "(bubble froze with mutex waiters %v; re-run with real timers) %s", waiters, v2.Violations[0].Detail)
+			default:
+				v.Inconclusive = "bubble froze, the real-time re-run is fine (C10)"
+			}
 			return
 		}
 		if !v.OK() {
@@ -1532,7 +1618,7 @@ func c10FuzzOne(t *testing.T, target string, hidden bool, multi bool, sidLive bo
 			}
 			r.env.Net.Inject(vSrvAddr, s.addr, d)
 		}
-		synctest.Wait()
+		c10Wait()
 		if err := r.probe(s, 7); err != nil {
 			v.Failf("C10:established-session-dead-after-junk", "%v", err)
 			return
